@@ -230,7 +230,7 @@ Lemma set_terminal_id_bounded cfg w :
 Proof.
   unfold set_terminal_id. pose proof (get_system_info_bounded cfg w) as K. change (Bt TIMEOUT) with B60 in K.
   destruct (get_system_info cfg w) as [[si|e] w1]; [|lia].
-  destruct (list_eqb _ _); [lia|]. destruct (digits_value _); [|lia].
+  destruct (list_eqb _ _); [lia|]. destruct (digits_value _) as [tidn|]; [|lia]. destruct (99999999 <? tidn); [lia|].
   match goal with |- context [consume LOOPFUEL cfg (start_retry ?q TIMEOUT) w1 ?a ?h ?fin] =>
     pose proof (single_stream_call_bounded cfg q TIMEOUT w1 a h fin LOOPFUEL) as K2; change (20 * (2000 + 2 * TIMEOUT) + N.of_nat LOOPFUEL * TIMEOUT) with B60 in K2;
     destruct (consume LOOPFUEL cfg (start_retry q TIMEOUT) w1 a h fin) as [r2 w2] end.
@@ -331,7 +331,7 @@ Proof.
   unfold set_terminal_id, get_system_info.
   match goal with |- context [consume LOOPFUEL cfg (start_retry ?q TIMEOUT) w ?a ?h ?fin] =>
     pose proof (single_attempts cfg q TIMEOUT w a h fin LOOPFUEL) as K; destruct (consume LOOPFUEL cfg (start_retry q TIMEOUT) w a h fin) as [[si|e] w1] end; [|lia].
-  destruct (Client.list_eqb _ _); [lia|]. destruct (digits_value _); [|lia].
+  destruct (Client.list_eqb _ _); [lia|]. destruct (digits_value _) as [tidn|]; [|lia]. destruct (99999999 <? tidn); [lia|].
   match goal with |- context [consume LOOPFUEL cfg (start_retry ?q TIMEOUT) w1 ?a ?h ?fin] =>
     pose proof (single_attempts cfg q TIMEOUT w1 a h fin LOOPFUEL) as K2; destruct (consume LOOPFUEL cfg (start_retry q TIMEOUT) w1 a h fin) as [r2 w2] end.
   lia.
